@@ -45,6 +45,9 @@ CLAIMS = {
  'C18': dict(tech='TermFlow formulas: strict-refusal edge facts, term identities for capacity/growth expressions',
    text='Decides the formulas the property rests on: the bumping function refuses only under capacity < need strictly (exact fits are served; capacity is finger - data, the same term chunk_capacity() returns); the capacity constructor sizes its chunk for round_up(capacity, MIN_ALIGN) and starts it empty; the slow path starts from max(2 * usable size of the current chunk, request, default) and only halves, and each chunk is at least its candidate; RawVec grows to max(2*cap, used+extra) with a checked sum; with_capacity_in records the requested capacity and push reserves only when len == cap. The logarithmic request count and constant-factor overhead are asymptotic consequences that are not computed.',
    ref='DESIGN.md section 4 C18'),
+ 'C05': dict(tech='compile-fail/compile-pass witnesses decided by rustc (borrow checker, trait solver) + signature region rule over fn_sig + call-graph Send/Sync audit',
+   text='The oracle is the compiler: a generated matrix of client programs (every public lifetime-carrying value kind x outlive / use-after-reset / move-away / across-iteration / thread-sharing misuse, plus Send/Sync bound probes) is type-checked against the crate built from the current tree; each misuse must be rejected with the expected error code while its legal twin compiles, and the ordinary patterns must compile. Beyond the finite matrix, two rules quantify over the whole public API: every region in a safe public function\'s return type occurs in a parameter type (no caller-chosen lifetime), and every public type rustc accepts as Send/Sync has no self-taking entry point (incl. Drop) that reaches an arena entry point in the call graph.',
+   ref='DESIGN.md section 4 C05'),
 }
 
 NOT_YET = 'check not built yet (build in progress, see DESIGN.md section 9)'
